@@ -23,6 +23,7 @@ type BVal struct {
 	S  string  `json:"s,omitempty"`
 	B  []byte  `json:"b,omitempty"` // string payload when not valid UTF-8
 	Sl []BVal  `json:"sl,omitempty"`
+	An bool    `json:"any,omitempty"` // slice: element type any ([]any)
 }
 
 func (b BVal) str() string {
@@ -56,6 +57,9 @@ func (b BVal) value() goatlang.Value {
 		t := goatlang.TypeInt32
 		if len(b.Sl) > 0 && b.Sl[0].K == "string" {
 			t = goatlang.TypeString
+		}
+		if b.An {
+			t = goatlang.TypeNil // []any
 		}
 		return goatlang.NewSlice(t, vs)
 	}
@@ -123,6 +127,7 @@ var bPool = []BVal{
 	{K: "string", S: ""}, {K: "string", S: "a"}, {K: "string", S: "héllo wörld"}, {K: "string", B: []byte{0xff, 0xfe, 'x'}}, {K: "string", S: "with \"quotes\"\n"},
 	{K: "bool", I: 1}, {K: "bool", I: 0}, {K: "nil"},
 	{K: "slice", Sl: []BVal{{K: "int32", I: 1}, {K: "int32", I: 2}}}, {K: "slice"}, {K: "slice", Sl: []BVal{{K: "string", S: "x"}, {K: "string", S: ""}}},
+	{K: "slice", An: true, Sl: []BVal{{K: "int32", I: 7}, {K: "string", S: "eight"}, {K: "float64", F: 9.5}}}, {K: "slice", An: true}, {K: "slice", An: true, Sl: []BVal{{K: "nil"}}},
 }
 
 // BArg is one argument expression of a call site.
@@ -340,7 +345,7 @@ func (e boundary) genPlan(r *core.PRNG) *BPlan {
 	if r.Chance(1, 2) {
 		nf := 1 + r.Intn(2)
 		for i := 0; i < nf; i++ {
-			p.Faults = append(p.Faults, BFault{Native: r.Intn(len(p.Natives)), Nth: 1 + r.Intn(3), Kind: core.Pick(r, []string{"string", "error"})})
+			p.Faults = append(p.Faults, BFault{Native: r.Intn(len(p.Natives)), Nth: 1 + r.Intn(3), Kind: core.Pick(r, bFaultKinds)})
 		}
 	}
 	nh := r.Intn(6)
@@ -382,7 +387,7 @@ func (e boundary) RunUnit(seed uint64, tier string, unit int, exec func(plan any
 		}
 		for nth := 1; nth <= n; nth++ {
 			q := core.CloneJSON(p)
-			q.Faults = []BFault{{Native: k, Nth: nth, Kind: []string{"string", "error"}[(k+nth)%2]}}
+			q.Faults = []BFault{{Native: k, Nth: nth, Kind: bFaultKinds[(k+nth)%len(bFaultKinds)]}}
 			exec(q)
 		}
 	}
@@ -583,6 +588,17 @@ type bRun struct {
 
 const bFaultMsg = "INJECTED-NATIVE-FAULT-7f3a"
 
+var bFaultKinds = []string{"string", "error", "custom", "strings", "stringer"}
+
+type bCustomPanic struct {
+	Code int
+	Msg  string
+}
+
+type bStringer struct{}
+
+func (bStringer) String() string { return bFaultMsg }
+
 func (run *bRun) fail(rule, key, format string, args ...any) {
 	run.res.Fail("C19", rule, key, format, args...)
 }
@@ -652,8 +668,15 @@ func (run *bRun) invoke(k int, site int, args []goatlang.Value, vargs []goatlang
 			run.fired, run.firedAt, run.firedG = f, site, run.lastAt
 			run.h.C.Inc("fault:native-panic")
 			run.h.H.Add("native", "fault", fmt.Sprintf("native %d invocation %d site %d", k, nth, site))
-			if f.Kind == "error" {
+			switch f.Kind {
+			case "error":
 				panic(errors.New(bFaultMsg))
+			case "custom":
+				panic(bCustomPanic{Code: 77, Msg: bFaultMsg})
+			case "strings":
+				panic([]string{bFaultMsg, "second"})
+			case "stringer":
+				panic(bStringer{})
 			}
 			panic(bFaultMsg)
 		}
